@@ -37,6 +37,9 @@ CHECKS["C02"] = dict(cat="proof", tech=TECH,
 CHECKS["C03"] = dict(cat="proof", tech=TECH,
    text="Contracts on Fresnel coefficients (magnitude <= 1, = 1 under total internal reflection), the attenuation factor exp(-|integral|) in (0,1] with integrand ds/L_att(z,|f|), and on the returned polarization vectors (unit, orthogonal, transverse) for all three path classes, with the vertical-emission defect carved out as a known finding; delay/linearity/energy of propagate() are listed as not covered.",
    note=PROOF_NOTE + " Known finding D10 (vertical emitted direction) is listed in known_findings.json.", ref="§5 C03")
+CHECKS["C06"] = dict(cat="proof", tech=TECH + "; plus exhaustive static read/write-set obligations over the class ASTs",
+   text="Representation invariant of lazily evaluated objects (a cached value exists only while the defining attributes are structurally unchanged) proved to be established by the constructor and preserved by every public mutating operation of FunctionSignal for symbolic states, read-set of the lazy value, the generic LazyMutableClass/lazy_property contract, index facts of the buffer-extended grid, and static obligations that no ray tracer/path class keeps derived state outside the cache mechanism.",
+   note=PROOF_NOTE + " Component count of the symbolic FunctionSignal state is bounded (B).", ref="§5 C06")
 NOT_YET = {}
 def main():
     props = [json.loads(l) for l in open(os.path.join(HERE, "properties.jsonl"))]
